@@ -27,6 +27,17 @@ def validate(ctx, events, table, label):
 
 def run(ctx, prop="C08"):
     ctx.mc("FzfPipeline", "MC_Pipeline_quick.cfg" if ctx.quick else "MC_Pipeline.cfg", timeout=1700, workers=8)
+    if not ctx.quick and prop == "C08":
+        ctx.mc("FzfPipeline", "MC_Pipeline_deep.cfg", timeout=3000, workers=12, heap="16g")
+    # the named deviations must be reachable in the model (their counterexamples document findings F5, F17, F21)
+    devs = {}
+    for cfg, inv in (("MC_Pipeline_dev.cfg", "ConvergenceStrict"), ("MC_Pipeline_dev_stale.cfg", "NeverStale"),
+                     ("MC_Pipeline_dev_lost.cfg", "NeverLost")):
+        r = ctx.tlc("FzfPipeline", cfg, workers=4, timeout=900, expect_ok=False, label="dev-" + inv)
+        if r.code != 12 or not any(inv in e for e in r.errors):
+            raise Infra("deviation config %s no longer yields its counterexample (exit %d)" % (cfg, r.code))
+        devs[inv] = "counterexample found (%d states explored)" % r.distinct
+    ctx.cov["deviation_counterexamples"] = devs
     # cross-module lemmas: the Holds table / query lattice of the concurrent model means what FzfQuery.Matches says
     ctx.tlc("Fzf", "MC_Fzf.cfg", workers=2, timeout=600, label="root-lemmas")
     race = prop == "C13"
